@@ -294,6 +294,9 @@ impl Check for Published {
         live.open(&u, &case.initial);
         let mut text = case.initial.clone();
         r.evals = 0;
+        // what the client knows: the last list published for the document (a server need not
+        // publish again when nothing changes)
+        let mut known = live.diagnostics().into_iter().filter(|p| p.uri == u).last();
         for (k, batch) in case.history.iter().enumerate() {
             let mut t2 = text.clone();
             let mut changes = Vec::new();
@@ -316,7 +319,10 @@ impl Check for Published {
                 r.fail(sig, "the document broker dies", describe_case(&case));
                 return r;
             }
-            let got = live.diagnostics().into_iter().filter(|p| p.uri == u).last();
+            if let Some(p) = live.diagnostics().into_iter().filter(|p| p.uri == u).last() {
+                known = Some(p);
+            }
+            let got = known.clone();
             let mut fresh = Srv::new(true);
             fresh.open(&u, &text);
             let _ = fresh.settle();
